@@ -72,6 +72,8 @@ SHARED_C10 = {
     "param_over_reducible": NPow(Add(x, C(0)), 3),
     "const_undef_wrapped": Minus(Log(C(-1)), C(2)),
     "div_by_zero_const": Div(C(1), C(0)),
+    # constants spelled as floats (whole-valued, negative zero): a rewrite that "normalises" a caller's node shows in print
+    "float_consts": Mul(Add(x, C(3.0)), C(2.0), Add(y, C(-0.0))),
 }
 CONTEXTS = {
     "add_y": lambda s: Add(s, y),
@@ -91,7 +93,8 @@ VARS = ("x", "y")
 
 # ---------------------------------------------------------------- pools
 class PoolSpec:
-    def __init__(self, name, shared, c1, c2, slots, points=POINTS, extra_ops=True, budget=None):
+    def __init__(self, name, shared, c1, c2, slots, points=POINTS, extra_ops=True, budget=None, keep_located=False):
+        self.keep_located = keep_located   # LocatedDifferentials returned by the pooled Differentials are kept and read later
         self.budget = budget      # harness-patched REDUCTION_STEPS_BOUND for this pool (leaked budget state shows early)
         self.name = name
         self.shared = shared
@@ -177,6 +180,12 @@ def ops_for(spec: PoolSpec):
     ops.append(("repr", "e1"))
     if spec.budget is not None:
         ops.append(("overflow",))
+    # requests on unrelated, freshly built expressions: they can only matter through process-wide state
+    ops.append(("ext", "failing-fold"))
+    ops.append(("ext", "non-finite-results"))
+    if spec.keep_located:
+        ops.append(("LD.read", "x"))
+        ops.append(("LD.read", "y"))
     for sl in spec.slots:
         ops.append(("new", sl))
         kind = sl[0:2]
@@ -196,18 +205,21 @@ def ops_for(spec: PoolSpec):
             ops.append(("keptP.asexpr",))
             ops.append(("Df.at.repr", sl, 0))
             ops.append(("Df.at.repr", sl, "twin"))
+            if spec.keep_located:
+                for j in range(np_):
+                    ops.append(("Df.at.keep", sl, j))
             for j in range(np_):
                 ops.append(("Df.at", sl, j, "y"))
                 for v in VARS:
                     ops.append(("Df.component_at", sl, v, j))
             for v in VARS:
                 ops.append(("Df.component.asexpr", sl, v))
-    return ops
+    return list(dict.fromkeys(ops))
 
 
 def enabled(pool, op):
     k = op[0]
-    if k in ("at", "at_num", "LD", "new", "D.at_num", "LD.keep", "repr", "overflow"):
+    if k in ("at", "at_num", "LD", "new", "D.at_num", "LD.keep", "repr", "overflow", "ext"):
         return True
     if k == "LD.read":
         return pool["kept"] is not None
@@ -278,6 +290,15 @@ def apply_op(pool, op):
                         f"equal copy to {_short(b)}")
     if k == "overflow":
         return A.outcome(lambda: Derivative(smx.Multiply(smx.Exponential(smx.Constant(1000)), smx.Variable("x"))).as_expression())
+    if k == "ext":
+        return external_request(op[1])
+    if k == "Df.at.keep":
+        c = A.construct(lambda: pool[op[1]].at(pts[op[2]]))
+        if c[0] == "ok":
+            pool["kept"] = (c[1], SLOT_KINDS[op[1]][0], op[2])
+            return ("ok",)
+        pool["kept"] = None
+        return c
     if k == "new":
         eslot, ctor = SLOT_KINDS[op[1]]
         c = A.construct(lambda: ctor(pool[eslot]))
@@ -324,6 +345,24 @@ def apply_op(pool, op):
     raise ValueError(op)
 
 
+def external_request(which):
+    """A request that involves none of the pooled objects (fresh expressions only)."""
+    X, Y = smx.Variable("x"), smx.Variable("y")
+    if which == "failing-fold":
+        # simplification meets a variable-free sub-expression that is undefined: its fold fails and is abandoned
+        return A.outcome(lambda: Partial(smx.Multiply(smx.Add(smx.Logarithm(smx.Constant(-1)), smx.Constant(2)), X), "x").as_expression())
+    big = Point(x=1e200, y=1e200)
+    edge = Point(x=1.7e308, y=-1.7e308)
+    tiny = Point(x=1e-320, y=1e200)
+    outs = []
+    for e, p in ((smx.Multiply(X, Y), big), (smx.Add(X, X), edge), (smx.Minus(X, Y), edge), (smx.Divide(Y, X), tiny),
+                 (smx.Reciprocal(X), tiny), (smx.Minus(smx.Multiply(X, Y), smx.Multiply(Y, X)), big),
+                 (smx.Multiply(smx.Constant(0), smx.Multiply(X, Y)), big)):
+        o = A.outcome(lambda: e.at(p))
+        outs.append(repr(o[1]) if o[0] == "val" else "/".join(str(u) for u in o[:2]))
+    return ("text", "; ".join(outs))
+
+
 def _text(thunk):
     try:
         return ("text", thunk())
@@ -333,7 +372,7 @@ def _text(thunk):
 
 def prerequisites(op):
     k = op[0]
-    if k in ("at", "at_num", "LD", "new", "D.at_num", "LD.keep", "repr", "overflow", "LD.read", "keptP.at", "keptP.asexpr"):
+    if k in ("at", "at_num", "LD", "new", "D.at_num", "LD.keep", "repr", "overflow", "ext", "LD.read", "keptP.at", "keptP.asexpr"):
         return []
     pre = [("new", op[1])]
     if k in ("out.at", "out.repr", "regen", "regen2"):
@@ -554,8 +593,8 @@ def is_dirty(pool, spec, op):
     k = op[0]
     if k in ("at", "at_num", "LD", "D.at_num", "LD.keep", "repr"):
         targets.append(pool[op[1]])
-    elif k in ("LD.read", "overflow"):
-        return pool["kept"] is not None
+    elif k in ("LD.read", "overflow", "ext"):
+        return pool["kept"] is not None or k == "ext"
     elif k in ("keptP.at", "keptP.asexpr", "Df.comp.keep"):
         return True
     elif k in ("out.repr", "regen", "regen2"):
@@ -743,6 +782,11 @@ def show_op(spec, op):
         return f"Partial(Divide(zed, {op[1]}.as_expression()), 'zed').as_expression()  vs  the same with a fresh structurally equal copy"
     if k == "overflow":
         return "Derivative(Exponential(Constant(1000)) * x).as_expression()   (raises OverflowError)"
+    if k == "ext":
+        return {"failing-fold": "Partial(Multiply(Add(Logarithm(Constant(-1)), Constant(2)), x), 'x').as_expression()   (fresh expression; its constant fold fails)",
+                "non-finite-results": "x*y, x+x, x-y, y/x, 1/x, x*y-y*x, 0*(x*y) on fresh expressions at points where doubles overflow (inf / nan results)"}[op[1]]
+    if k == "Df.at.keep":
+        return f"kept = {op[1]}.at({P(op[2])})"
     if k == "new":
         return f"{op[1]} = new {op[1]} over {SLOT_KINDS[op[1]][0]}"
     if k == "obj.at":
@@ -919,6 +963,11 @@ def pool_specs(pid, tier):
                           points=[POINTS[0], POINTS[1], POINTS[2]]))
     specs.append(PoolSpec("mul3/add_y_S+add_y", Mul(y, x, x), "add_y_S", "add_y", ("P1e", "Df2l"),
                           points=[POINTS[0], POINTS[1], POINTS[3]]))
+    # LocatedDifferentials handed out by a pooled Differential (early / late) are kept and read again after later calls
+    specs.append(PoolSpec("kept_located/early", Mul(x, y), "add_y", "npow2", ("Df2e",),
+                          points=[POINTS[0], POINTS[1], POINTS[2]], keep_located=True))
+    specs.append(PoolSpec("kept_located/late", Mul(x, y), "npow2", "exp", ("Df2l", "Df1e"),
+                          points=[POINTS[0], POINTS[1], POINTS[2]], keep_located=True))
     # a pool explored under a tight step budget, with an operation that makes simplification raise part-way:
     # step-budget state that leaks from one call into the next becomes visible within a few operations
     specs.append(PoolSpec("budget/mul", Mul(x, y), "add_y", "exp", ("P1l", "Df2e"),
